@@ -16,7 +16,9 @@ VARIABLE l
 TInit == l = 1
 
 NoNul(s) == \A i \in 1..Len(s) : s[i] # 0
-WideOK(s, o) == /\ o.dw = o.w /\ o.wl = Len(o.w)
+\* dataw()/wlength() are the UTF-16 form read as a wide C string (it ends at the first 0 unit, which only ill-formed
+\* input can produce)
+WideOK(s, o) == /\ o.dw = CStr(o.w) /\ o.wl = Len(o.dw)
 
 TextOK(e) == /\ \A i \in 1..Len(e.cs) : IsScalar(e.cs[i]) /\ e.cs[i] # 0
              /\ e.s = Enc8Seq(e.cs)
